@@ -218,6 +218,7 @@ func runC13(c *run.Ctx) {
 	mutants += c13BuiltNames(c)
 	mutants += c13LocationMatrix(c)
 	mutants += c13SecondSchemaDefinition(c)
+	mutants += c13AfterRefusedExtensions(c)
 	mutants += c13LateInvalidated(c)
 	c.MinNontriv = (n + mutants) / 3
 	c.Set("mutants_loaded", mutants)
